@@ -143,7 +143,7 @@ def run(ctx):
     judge(ctx, sl, base=len(cases))
     ctx.notes["sliver_final_step_cases"] = len(sl)
     ctx.rule = ("6 adaptive solvers x smooth block systems (incl. solutions at rest and relaxing) x tol 1e-3..1e-9 x dtmin <= 1e-6 dtmax; "
-                "a run is non-trivial when tol^(-1/p)*dtmax >= 4 (the estimator, not the step cap, sets the work) and it completed; second pass: "
+                "a run is non-trivial when tol^(-1/p)*dtmax >= 4 (the estimator, not the step cap, sets the work) and it completed; plus 3 long easy stretches per solver (span 20-40, tol 1e-3..1e-3.5, dtmin = 1e-9 dtmax) where the step cap sets the work; second pass: "
                 "the same problems with the end moved to 0.02-0.2 dtmin beyond a point the solver lands on (sliver final step)")
     ctx.assumptions += ["work bound constant KW = 100 is wide by design: it separates 10^3-fold defects from honest variation",
                         "termination / MinimumTimeDeltaExceeded-only-below-minimum for every verdict sequence is model-checked in "
